@@ -22,6 +22,7 @@ EXPLANATION = ("Sibling agreement of the three feasibility checkers (ChargingNet
                "None (not by truthiness) and binds (matrix, linear, violation_tolerance, relative_tolerance) by name; a network without "
                "constraints returns True before constraint_current is reached, and no Interface path forwards a None constraint matrix."
                " Added in round 3: a constraint row is passed over only on the passing edge of the comparison of the call's own mode (decision table of the algorithm-side checker, modes by specialisation); constraint_current is analysed per mode by specialisation of its gated result.")
+EXPLANATION += ' Added in rounds 4-5: the infrastructure description used by the interface-side and algorithm-side checks is computed from the network as it is now (stateless-view rule shared with C05).'
 NOT_DECIDED = "numeric equality of the phasor magnitude computed by the two implementations within floating-point error near the limit"
 
 COEF = ("constraint_matrix",)
